@@ -138,6 +138,24 @@ def decision_paths(P, b, prims):
     return out
 
 
+def reaching_conditions(P, b, prims):
+    """primitive family -> the bound-test outcomes under which it is called, as a boolean function (DNF over comparison
+    facts, decisions stored in flags resolved per path)"""
+    O = X.Origins(b, P)
+    out = {}
+    for cs in b.calls():
+        nm = R.norm_method(cs.name).replace("tagged_", "")
+        if nm not in prims or not (cs.trait or "").split("::")[-1] in ("ProtoWrite", "ProtoRead"):
+            continue
+        d = R.reach_dnf(b, O, cs.bb)
+        if d is None:
+            out[nm] = None
+            continue
+        if out.get(nm, set()) is not None:
+            out.setdefault(nm, set()).update(d)
+    return out
+
+
 def r3(ctx):
     rule = "C17.R3"
     ctx.rule(rule, "T3-a width cascade: ProtobufWriter::write_number and ProtobufReader::read_number test the same boundaries on C::MIN / "
@@ -159,13 +177,17 @@ def r3(ctx):
         else:
             ctx.ok(rule, "number#%s-boundaries" % side, {"facts": sorted(ff.cmps)})
     prims = ("uint32", "uint64", "sint32", "sint64")
-    dw, dr = decision_paths(P, wb, prims), decision_paths(P, rb, prims)
+    dw, dr = reaching_conditions(P, wb, prims), reaching_conditions(P, rb, prims)
     for p in prims:
         a, b2 = dw.get(p), dr.get(p)
-        detail = {"primitive": p, "writer_path": sorted(map(sorted, a or [])), "reader_path": sorted(map(sorted, b2 or []))}
+        detail = {"primitive": p, "writer_paths": sorted(map(sorted, a or [])), "reader_paths": sorted(map(sorted, b2 or []))}
         if a is None or b2 is None:
-            ctx.fail(rule, "number#" + p, "primitive %s is used only on one side" % p, "%s:%d" % (wb.file, wb.line), detail)
-        elif a != b2:
+            ctx.fail(rule, "number#" + p, "primitive %s is used only on one side (or its reaching conditions could not be enumerated)" % p,
+                     "%s:%d" % (wb.file, wb.line), detail)
+            continue
+        same, witness = R.dnf_equal(a, b2)
+        if not same:
+            detail["distinguishing_outcomes"] = witness
             ctx.fail(rule, "number#" + p, "writer and reader reach %s under different bound tests" % p, "%s:%d" % (rb.file, rb.line), detail)
         else:
             ctx.ok(rule, "number#" + p, detail)
